@@ -5,19 +5,17 @@ VERIF = os.path.dirname(os.path.dirname(os.path.abspath(__file__)))
 props = [json.loads(l) for l in open(os.path.join(VERIF, "properties.jsonl"))]
 ids = [p["id"] for p in props]
 
-CHECKS = {
- "C08": dict(
-   category="proof",
-   text="Every clause of the statement except the last is a Lean theorem over ALL pairs of layouts about a literal port of the state-tree crate "
-        "(shape, bounds, destination-disjointness, order, zero elsewhere, order-independence of application, no-op on identical layouts, apply never panics). "
-        "The survivor clause is machine-refuted for the algorithm as it stands (finding F5, listed) and the judge looks for survivors lost beyond what the model predicts. "
-        "The port is tied to the crate by exhaustive (<=4 nodes quick, <=5 thorough) and random correspondence of patch sets and applied storage; "
-        "the implementation's own output is additionally judged by a Lean checker with a soundness theorem.",
-   design_ref="DESIGN.md §5 C08",
-   note="Trusted: Lean kernel + {propext, Classical.choice, Quot.sound}; the hand port Model/StateTree.lean (validated by the correspondence run each time); "
-        "tools/extract.py for DELAY_ADDITIONAL_OFFSET; harness text codec. f64 scores modelled as Nat.",
-   technique="Lean 4 theorems over a hand-ported model + exhaustive/random differential correspondence with the crate"),
-}
+CHECKS = {}
+MD = os.path.join(VERIF, "tools", "manifest.d")
+for fn in sorted(os.listdir(MD)):
+    if fn.endswith(".json"):
+        CHECKS[fn[:-5]] = json.load(open(os.path.join(MD, fn)))
+NA = {}
+if os.path.exists(os.path.join(MD, "not_applicable.txt")):
+    for line in open(os.path.join(MD, "not_applicable.txt")):
+        if "|" in line:
+            k, v = line.split("|", 1)
+            NA[k.strip()] = v.strip()
 NA_REASON = "not yet built in this session: the Lean model and its correspondence for this property are still under construction (see DESIGN.md §10 build order); no check is claimed until both exist"
 
 man = {
@@ -54,6 +52,6 @@ for i in ids:
             "technique": c["technique"],
         })
     else:
-        man["not_applicable"].append({"property_id": i, "reason": NA_REASON})
+        man["not_applicable"].append({"property_id": i, "reason": NA.get(i, NA_REASON)})
 json.dump(man, open(os.path.join(VERIF, "MANIFEST.json"), "w"), indent=1)
 print("checks:", len(man["checks"]), "not_applicable:", len(man["not_applicable"]))
